@@ -151,6 +151,11 @@ unsigned int Interpolation::Hunt(double x)
 unsigned int Interpolation::Locate(double x)
 {
 	unsigned int j;
+	if(std::isnan(x))
+	{
+		std::cerr << "Error in libphysica::Interpolation::Locate(): The argument is NaN." << std::endl;
+		std::exit(EXIT_FAILURE);
+	}
 	// Check if we are inside the domain, but allow a bit of extrapolation outside it.
 	if(x < domain[0] || x > domain[1])
 	{
